@@ -93,6 +93,7 @@ def build(ch, with_options=True):
     u2split = ch.choose('u2split', [23, 24]) if depth >= 2 else 23
     imp19 = ch.choose('imp19', [1, 0])
     imp10 = ch.choose('imp10', [1, 0])       # a FILLed level-0 cell of importance 0 produces nothing
+    imp11 = ch.choose('imp11', [1, 0])       # ... and an importance-0 cell with a TRCL is still what #11 refers to
     opts = []
     if with_options:
         opts = ch.choose('options', [[], ['--max-inline-score', '0'], ['--always-inline-filling'],
@@ -103,6 +104,9 @@ def build(ch, with_options=True):
     c10 = HCell(10, ('*', ('*', 1, -2), ('*', 4, -5)), mat=1, rho='-2.7')
     c11 = HCell(11, ('*', ('*', 2, -3), ('*', 4, -5)), mat=2, rho='-1.0')
     c10.imp = imp10
+    c11.imp = imp11
+    if not (imp10 or imp11 or imp19):
+        ch.reject('nothing to convert')
     if fill10:
         c10.mat = 0; c10.fill = 1; c10.filltr = make_tr(d, t10, sp10, 7)
     if fill11:
